@@ -15,9 +15,11 @@
    * time: a 30 s timer of `receive`/`write` is "the queue is full, the event is dropped";
      ticks of the ping ticker and every other environment action draw on a finite
      `budget` (any finite behaviour of peer / application / clock is some budget);
-   * socket: bytes written by the peer become readable in order (`inbuf`); a blocked read
+   * socket: bytes written by the peer become readable in order (`inbuf`), except that lines not
+     yet read when the peer closes may be lost from the end (reset); a blocked read
      returns once either end is closed; a write completes at once or fails (it never
-     blocks for ever); the 300 s read deadline never fires;
+     blocks for ever); it fails when either end is closed or after the environment broke the
+     sending direction (LWFault: reads stay healthy); the 300 s read deadline never fires;
    * handlers: foreground handlers return (the step XRan is always enabled); what they send
      is covered by the application's LSend;
    * STS upgrade (`goto startConn`) is not modelled (C10).
@@ -64,6 +66,7 @@ Record state := mkState {
   connected : bool;
   sock_closed : bool;
   peer_closed : bool;
+  wbroken : bool;
   inbuf : list line;
   outbuf : list out;
   close_st : close_t;
@@ -73,45 +76,47 @@ Record state := mkState {
 }.
 
 Definition set_rx (v : list event) (s : state) : state :=
-  {| rx := v; tx := tx s; conn_set := conn_set s; cpc := cpc s; cancelled := cancelled s; gerr := gerr s; xpc := xpc s; rpc := rpc s; spc := spc s; ppc := ppc s; linger := linger s; connected := connected s; sock_closed := sock_closed s; peer_closed := peer_closed s; inbuf := inbuf s; outbuf := outbuf s; close_st := close_st s; budget := budget s; peer_eof := peer_eof s; tracked := tracked s |}.
+  {| rx := v; tx := tx s; conn_set := conn_set s; cpc := cpc s; cancelled := cancelled s; gerr := gerr s; xpc := xpc s; rpc := rpc s; spc := spc s; ppc := ppc s; linger := linger s; connected := connected s; sock_closed := sock_closed s; peer_closed := peer_closed s; wbroken := wbroken s; inbuf := inbuf s; outbuf := outbuf s; close_st := close_st s; budget := budget s; peer_eof := peer_eof s; tracked := tracked s |}.
 Definition set_tx (v : list out) (s : state) : state :=
-  {| rx := rx s; tx := v; conn_set := conn_set s; cpc := cpc s; cancelled := cancelled s; gerr := gerr s; xpc := xpc s; rpc := rpc s; spc := spc s; ppc := ppc s; linger := linger s; connected := connected s; sock_closed := sock_closed s; peer_closed := peer_closed s; inbuf := inbuf s; outbuf := outbuf s; close_st := close_st s; budget := budget s; peer_eof := peer_eof s; tracked := tracked s |}.
+  {| rx := rx s; tx := v; conn_set := conn_set s; cpc := cpc s; cancelled := cancelled s; gerr := gerr s; xpc := xpc s; rpc := rpc s; spc := spc s; ppc := ppc s; linger := linger s; connected := connected s; sock_closed := sock_closed s; peer_closed := peer_closed s; wbroken := wbroken s; inbuf := inbuf s; outbuf := outbuf s; close_st := close_st s; budget := budget s; peer_eof := peer_eof s; tracked := tracked s |}.
 Definition set_conn_set (v : bool) (s : state) : state :=
-  {| rx := rx s; tx := tx s; conn_set := v; cpc := cpc s; cancelled := cancelled s; gerr := gerr s; xpc := xpc s; rpc := rpc s; spc := spc s; ppc := ppc s; linger := linger s; connected := connected s; sock_closed := sock_closed s; peer_closed := peer_closed s; inbuf := inbuf s; outbuf := outbuf s; close_st := close_st s; budget := budget s; peer_eof := peer_eof s; tracked := tracked s |}.
+  {| rx := rx s; tx := tx s; conn_set := v; cpc := cpc s; cancelled := cancelled s; gerr := gerr s; xpc := xpc s; rpc := rpc s; spc := spc s; ppc := ppc s; linger := linger s; connected := connected s; sock_closed := sock_closed s; peer_closed := peer_closed s; wbroken := wbroken s; inbuf := inbuf s; outbuf := outbuf s; close_st := close_st s; budget := budget s; peer_eof := peer_eof s; tracked := tracked s |}.
 Definition set_cpc (v : cpc_t) (s : state) : state :=
-  {| rx := rx s; tx := tx s; conn_set := conn_set s; cpc := v; cancelled := cancelled s; gerr := gerr s; xpc := xpc s; rpc := rpc s; spc := spc s; ppc := ppc s; linger := linger s; connected := connected s; sock_closed := sock_closed s; peer_closed := peer_closed s; inbuf := inbuf s; outbuf := outbuf s; close_st := close_st s; budget := budget s; peer_eof := peer_eof s; tracked := tracked s |}.
+  {| rx := rx s; tx := tx s; conn_set := conn_set s; cpc := v; cancelled := cancelled s; gerr := gerr s; xpc := xpc s; rpc := rpc s; spc := spc s; ppc := ppc s; linger := linger s; connected := connected s; sock_closed := sock_closed s; peer_closed := peer_closed s; wbroken := wbroken s; inbuf := inbuf s; outbuf := outbuf s; close_st := close_st s; budget := budget s; peer_eof := peer_eof s; tracked := tracked s |}.
 Definition set_cancelled (v : bool) (s : state) : state :=
-  {| rx := rx s; tx := tx s; conn_set := conn_set s; cpc := cpc s; cancelled := v; gerr := gerr s; xpc := xpc s; rpc := rpc s; spc := spc s; ppc := ppc s; linger := linger s; connected := connected s; sock_closed := sock_closed s; peer_closed := peer_closed s; inbuf := inbuf s; outbuf := outbuf s; close_st := close_st s; budget := budget s; peer_eof := peer_eof s; tracked := tracked s |}.
+  {| rx := rx s; tx := tx s; conn_set := conn_set s; cpc := cpc s; cancelled := v; gerr := gerr s; xpc := xpc s; rpc := rpc s; spc := spc s; ppc := ppc s; linger := linger s; connected := connected s; sock_closed := sock_closed s; peer_closed := peer_closed s; wbroken := wbroken s; inbuf := inbuf s; outbuf := outbuf s; close_st := close_st s; budget := budget s; peer_eof := peer_eof s; tracked := tracked s |}.
 Definition set_gerr (v : err) (s : state) : state :=
-  {| rx := rx s; tx := tx s; conn_set := conn_set s; cpc := cpc s; cancelled := cancelled s; gerr := v; xpc := xpc s; rpc := rpc s; spc := spc s; ppc := ppc s; linger := linger s; connected := connected s; sock_closed := sock_closed s; peer_closed := peer_closed s; inbuf := inbuf s; outbuf := outbuf s; close_st := close_st s; budget := budget s; peer_eof := peer_eof s; tracked := tracked s |}.
+  {| rx := rx s; tx := tx s; conn_set := conn_set s; cpc := cpc s; cancelled := cancelled s; gerr := v; xpc := xpc s; rpc := rpc s; spc := spc s; ppc := ppc s; linger := linger s; connected := connected s; sock_closed := sock_closed s; peer_closed := peer_closed s; wbroken := wbroken s; inbuf := inbuf s; outbuf := outbuf s; close_st := close_st s; budget := budget s; peer_eof := peer_eof s; tracked := tracked s |}.
 Definition set_xpc (v : xpc_t) (s : state) : state :=
-  {| rx := rx s; tx := tx s; conn_set := conn_set s; cpc := cpc s; cancelled := cancelled s; gerr := gerr s; xpc := v; rpc := rpc s; spc := spc s; ppc := ppc s; linger := linger s; connected := connected s; sock_closed := sock_closed s; peer_closed := peer_closed s; inbuf := inbuf s; outbuf := outbuf s; close_st := close_st s; budget := budget s; peer_eof := peer_eof s; tracked := tracked s |}.
+  {| rx := rx s; tx := tx s; conn_set := conn_set s; cpc := cpc s; cancelled := cancelled s; gerr := gerr s; xpc := v; rpc := rpc s; spc := spc s; ppc := ppc s; linger := linger s; connected := connected s; sock_closed := sock_closed s; peer_closed := peer_closed s; wbroken := wbroken s; inbuf := inbuf s; outbuf := outbuf s; close_st := close_st s; budget := budget s; peer_eof := peer_eof s; tracked := tracked s |}.
 Definition set_rpc (v : rpc_t) (s : state) : state :=
-  {| rx := rx s; tx := tx s; conn_set := conn_set s; cpc := cpc s; cancelled := cancelled s; gerr := gerr s; xpc := xpc s; rpc := v; spc := spc s; ppc := ppc s; linger := linger s; connected := connected s; sock_closed := sock_closed s; peer_closed := peer_closed s; inbuf := inbuf s; outbuf := outbuf s; close_st := close_st s; budget := budget s; peer_eof := peer_eof s; tracked := tracked s |}.
+  {| rx := rx s; tx := tx s; conn_set := conn_set s; cpc := cpc s; cancelled := cancelled s; gerr := gerr s; xpc := xpc s; rpc := v; spc := spc s; ppc := ppc s; linger := linger s; connected := connected s; sock_closed := sock_closed s; peer_closed := peer_closed s; wbroken := wbroken s; inbuf := inbuf s; outbuf := outbuf s; close_st := close_st s; budget := budget s; peer_eof := peer_eof s; tracked := tracked s |}.
 Definition set_spc (v : spc_t) (s : state) : state :=
-  {| rx := rx s; tx := tx s; conn_set := conn_set s; cpc := cpc s; cancelled := cancelled s; gerr := gerr s; xpc := xpc s; rpc := rpc s; spc := v; ppc := ppc s; linger := linger s; connected := connected s; sock_closed := sock_closed s; peer_closed := peer_closed s; inbuf := inbuf s; outbuf := outbuf s; close_st := close_st s; budget := budget s; peer_eof := peer_eof s; tracked := tracked s |}.
+  {| rx := rx s; tx := tx s; conn_set := conn_set s; cpc := cpc s; cancelled := cancelled s; gerr := gerr s; xpc := xpc s; rpc := rpc s; spc := v; ppc := ppc s; linger := linger s; connected := connected s; sock_closed := sock_closed s; peer_closed := peer_closed s; wbroken := wbroken s; inbuf := inbuf s; outbuf := outbuf s; close_st := close_st s; budget := budget s; peer_eof := peer_eof s; tracked := tracked s |}.
 Definition set_ppc (v : ppc_t) (s : state) : state :=
-  {| rx := rx s; tx := tx s; conn_set := conn_set s; cpc := cpc s; cancelled := cancelled s; gerr := gerr s; xpc := xpc s; rpc := rpc s; spc := spc s; ppc := v; linger := linger s; connected := connected s; sock_closed := sock_closed s; peer_closed := peer_closed s; inbuf := inbuf s; outbuf := outbuf s; close_st := close_st s; budget := budget s; peer_eof := peer_eof s; tracked := tracked s |}.
+  {| rx := rx s; tx := tx s; conn_set := conn_set s; cpc := cpc s; cancelled := cancelled s; gerr := gerr s; xpc := xpc s; rpc := rpc s; spc := spc s; ppc := v; linger := linger s; connected := connected s; sock_closed := sock_closed s; peer_closed := peer_closed s; wbroken := wbroken s; inbuf := inbuf s; outbuf := outbuf s; close_st := close_st s; budget := budget s; peer_eof := peer_eof s; tracked := tracked s |}.
 Definition set_linger (v : bool) (s : state) : state :=
-  {| rx := rx s; tx := tx s; conn_set := conn_set s; cpc := cpc s; cancelled := cancelled s; gerr := gerr s; xpc := xpc s; rpc := rpc s; spc := spc s; ppc := ppc s; linger := v; connected := connected s; sock_closed := sock_closed s; peer_closed := peer_closed s; inbuf := inbuf s; outbuf := outbuf s; close_st := close_st s; budget := budget s; peer_eof := peer_eof s; tracked := tracked s |}.
+  {| rx := rx s; tx := tx s; conn_set := conn_set s; cpc := cpc s; cancelled := cancelled s; gerr := gerr s; xpc := xpc s; rpc := rpc s; spc := spc s; ppc := ppc s; linger := v; connected := connected s; sock_closed := sock_closed s; peer_closed := peer_closed s; wbroken := wbroken s; inbuf := inbuf s; outbuf := outbuf s; close_st := close_st s; budget := budget s; peer_eof := peer_eof s; tracked := tracked s |}.
 Definition set_connected (v : bool) (s : state) : state :=
-  {| rx := rx s; tx := tx s; conn_set := conn_set s; cpc := cpc s; cancelled := cancelled s; gerr := gerr s; xpc := xpc s; rpc := rpc s; spc := spc s; ppc := ppc s; linger := linger s; connected := v; sock_closed := sock_closed s; peer_closed := peer_closed s; inbuf := inbuf s; outbuf := outbuf s; close_st := close_st s; budget := budget s; peer_eof := peer_eof s; tracked := tracked s |}.
+  {| rx := rx s; tx := tx s; conn_set := conn_set s; cpc := cpc s; cancelled := cancelled s; gerr := gerr s; xpc := xpc s; rpc := rpc s; spc := spc s; ppc := ppc s; linger := linger s; connected := v; sock_closed := sock_closed s; peer_closed := peer_closed s; wbroken := wbroken s; inbuf := inbuf s; outbuf := outbuf s; close_st := close_st s; budget := budget s; peer_eof := peer_eof s; tracked := tracked s |}.
 Definition set_sock_closed (v : bool) (s : state) : state :=
-  {| rx := rx s; tx := tx s; conn_set := conn_set s; cpc := cpc s; cancelled := cancelled s; gerr := gerr s; xpc := xpc s; rpc := rpc s; spc := spc s; ppc := ppc s; linger := linger s; connected := connected s; sock_closed := v; peer_closed := peer_closed s; inbuf := inbuf s; outbuf := outbuf s; close_st := close_st s; budget := budget s; peer_eof := peer_eof s; tracked := tracked s |}.
+  {| rx := rx s; tx := tx s; conn_set := conn_set s; cpc := cpc s; cancelled := cancelled s; gerr := gerr s; xpc := xpc s; rpc := rpc s; spc := spc s; ppc := ppc s; linger := linger s; connected := connected s; sock_closed := v; peer_closed := peer_closed s; wbroken := wbroken s; inbuf := inbuf s; outbuf := outbuf s; close_st := close_st s; budget := budget s; peer_eof := peer_eof s; tracked := tracked s |}.
 Definition set_peer_closed (v : bool) (s : state) : state :=
-  {| rx := rx s; tx := tx s; conn_set := conn_set s; cpc := cpc s; cancelled := cancelled s; gerr := gerr s; xpc := xpc s; rpc := rpc s; spc := spc s; ppc := ppc s; linger := linger s; connected := connected s; sock_closed := sock_closed s; peer_closed := v; inbuf := inbuf s; outbuf := outbuf s; close_st := close_st s; budget := budget s; peer_eof := peer_eof s; tracked := tracked s |}.
+  {| rx := rx s; tx := tx s; conn_set := conn_set s; cpc := cpc s; cancelled := cancelled s; gerr := gerr s; xpc := xpc s; rpc := rpc s; spc := spc s; ppc := ppc s; linger := linger s; connected := connected s; sock_closed := sock_closed s; peer_closed := v; wbroken := wbroken s; inbuf := inbuf s; outbuf := outbuf s; close_st := close_st s; budget := budget s; peer_eof := peer_eof s; tracked := tracked s |}.
+Definition set_wbroken (v : bool) (s : state) : state :=
+  {| rx := rx s; tx := tx s; conn_set := conn_set s; cpc := cpc s; cancelled := cancelled s; gerr := gerr s; xpc := xpc s; rpc := rpc s; spc := spc s; ppc := ppc s; linger := linger s; connected := connected s; sock_closed := sock_closed s; peer_closed := peer_closed s; wbroken := v; inbuf := inbuf s; outbuf := outbuf s; close_st := close_st s; budget := budget s; peer_eof := peer_eof s; tracked := tracked s |}.
 Definition set_inbuf (v : list line) (s : state) : state :=
-  {| rx := rx s; tx := tx s; conn_set := conn_set s; cpc := cpc s; cancelled := cancelled s; gerr := gerr s; xpc := xpc s; rpc := rpc s; spc := spc s; ppc := ppc s; linger := linger s; connected := connected s; sock_closed := sock_closed s; peer_closed := peer_closed s; inbuf := v; outbuf := outbuf s; close_st := close_st s; budget := budget s; peer_eof := peer_eof s; tracked := tracked s |}.
+  {| rx := rx s; tx := tx s; conn_set := conn_set s; cpc := cpc s; cancelled := cancelled s; gerr := gerr s; xpc := xpc s; rpc := rpc s; spc := spc s; ppc := ppc s; linger := linger s; connected := connected s; sock_closed := sock_closed s; peer_closed := peer_closed s; wbroken := wbroken s; inbuf := v; outbuf := outbuf s; close_st := close_st s; budget := budget s; peer_eof := peer_eof s; tracked := tracked s |}.
 Definition set_outbuf (v : list out) (s : state) : state :=
-  {| rx := rx s; tx := tx s; conn_set := conn_set s; cpc := cpc s; cancelled := cancelled s; gerr := gerr s; xpc := xpc s; rpc := rpc s; spc := spc s; ppc := ppc s; linger := linger s; connected := connected s; sock_closed := sock_closed s; peer_closed := peer_closed s; inbuf := inbuf s; outbuf := v; close_st := close_st s; budget := budget s; peer_eof := peer_eof s; tracked := tracked s |}.
+  {| rx := rx s; tx := tx s; conn_set := conn_set s; cpc := cpc s; cancelled := cancelled s; gerr := gerr s; xpc := xpc s; rpc := rpc s; spc := spc s; ppc := ppc s; linger := linger s; connected := connected s; sock_closed := sock_closed s; peer_closed := peer_closed s; wbroken := wbroken s; inbuf := inbuf s; outbuf := v; close_st := close_st s; budget := budget s; peer_eof := peer_eof s; tracked := tracked s |}.
 Definition set_close_st (v : close_t) (s : state) : state :=
-  {| rx := rx s; tx := tx s; conn_set := conn_set s; cpc := cpc s; cancelled := cancelled s; gerr := gerr s; xpc := xpc s; rpc := rpc s; spc := spc s; ppc := ppc s; linger := linger s; connected := connected s; sock_closed := sock_closed s; peer_closed := peer_closed s; inbuf := inbuf s; outbuf := outbuf s; close_st := v; budget := budget s; peer_eof := peer_eof s; tracked := tracked s |}.
+  {| rx := rx s; tx := tx s; conn_set := conn_set s; cpc := cpc s; cancelled := cancelled s; gerr := gerr s; xpc := xpc s; rpc := rpc s; spc := spc s; ppc := ppc s; linger := linger s; connected := connected s; sock_closed := sock_closed s; peer_closed := peer_closed s; wbroken := wbroken s; inbuf := inbuf s; outbuf := outbuf s; close_st := v; budget := budget s; peer_eof := peer_eof s; tracked := tracked s |}.
 Definition set_budget (v : nat) (s : state) : state :=
-  {| rx := rx s; tx := tx s; conn_set := conn_set s; cpc := cpc s; cancelled := cancelled s; gerr := gerr s; xpc := xpc s; rpc := rpc s; spc := spc s; ppc := ppc s; linger := linger s; connected := connected s; sock_closed := sock_closed s; peer_closed := peer_closed s; inbuf := inbuf s; outbuf := outbuf s; close_st := close_st s; budget := v; peer_eof := peer_eof s; tracked := tracked s |}.
+  {| rx := rx s; tx := tx s; conn_set := conn_set s; cpc := cpc s; cancelled := cancelled s; gerr := gerr s; xpc := xpc s; rpc := rpc s; spc := spc s; ppc := ppc s; linger := linger s; connected := connected s; sock_closed := sock_closed s; peer_closed := peer_closed s; wbroken := wbroken s; inbuf := inbuf s; outbuf := outbuf s; close_st := close_st s; budget := v; peer_eof := peer_eof s; tracked := tracked s |}.
 Definition set_peer_eof (v : bool) (s : state) : state :=
-  {| rx := rx s; tx := tx s; conn_set := conn_set s; cpc := cpc s; cancelled := cancelled s; gerr := gerr s; xpc := xpc s; rpc := rpc s; spc := spc s; ppc := ppc s; linger := linger s; connected := connected s; sock_closed := sock_closed s; peer_closed := peer_closed s; inbuf := inbuf s; outbuf := outbuf s; close_st := close_st s; budget := budget s; peer_eof := v; tracked := tracked s |}.
+  {| rx := rx s; tx := tx s; conn_set := conn_set s; cpc := cpc s; cancelled := cancelled s; gerr := gerr s; xpc := xpc s; rpc := rpc s; spc := spc s; ppc := ppc s; linger := linger s; connected := connected s; sock_closed := sock_closed s; peer_closed := peer_closed s; wbroken := wbroken s; inbuf := inbuf s; outbuf := outbuf s; close_st := close_st s; budget := budget s; peer_eof := v; tracked := tracked s |}.
 Definition set_tracked (v : list event) (s : state) : state :=
-  {| rx := rx s; tx := tx s; conn_set := conn_set s; cpc := cpc s; cancelled := cancelled s; gerr := gerr s; xpc := xpc s; rpc := rpc s; spc := spc s; ppc := ppc s; linger := linger s; connected := connected s; sock_closed := sock_closed s; peer_closed := peer_closed s; inbuf := inbuf s; outbuf := outbuf s; close_st := close_st s; budget := budget s; peer_eof := peer_eof s; tracked := v |}.
+  {| rx := rx s; tx := tx s; conn_set := conn_set s; cpc := cpc s; cancelled := cancelled s; gerr := gerr s; xpc := xpc s; rpc := rpc s; spc := spc s; ppc := ppc s; linger := linger s; connected := connected s; sock_closed := sock_closed s; peer_closed := peer_closed s; wbroken := wbroken s; inbuf := inbuf s; outbuf := outbuf s; close_st := close_st s; budget := budget s; peer_eof := peer_eof s; tracked := v |}.
 
 Definition cap : nat := 25.   (* make(chan *Event, 25) *)
 
@@ -129,7 +134,7 @@ Definition ping_out : out := mkOut false [80%N; 73%N; 78%N; 71%N].   (* "PING" *
 Definition init (b : nat) : state :=
   {| rx := []; tx := []; conn_set := false; cpc := CIdle; cancelled := false; gerr := ENil;
      xpc := XDone; rpc := RDone; spc := SDone; ppc := PDone; linger := false;
-     connected := false; sock_closed := false; peer_closed := false; inbuf := []; outbuf := [];
+     connected := false; sock_closed := false; peer_closed := false; wbroken := false; inbuf := []; outbuf := [];
      close_st := KNone; budget := b; peer_eof := false; tracked := [] |}.
 
 (* internalConnect up to the spawn of the four loops: state.reset, drainQueues, new
@@ -137,7 +142,7 @@ Definition init (b : nat) : state :=
 Definition fresh_conn (regs : list out) (ping : bool) (s : state) : state :=
   {| rx := []; tx := []; conn_set := true; cpc := CReg regs; cancelled := false; gerr := ENil;
      xpc := XSel; rpc := RTop; spc := SSel; ppc := if ping then PSel else PDone; linger := false;
-     connected := true; sock_closed := false; peer_closed := false; inbuf := []; outbuf := [];
+     connected := true; sock_closed := false; peer_closed := false; wbroken := false; inbuf := []; outbuf := [];
      close_st := close_st s; budget := budget s; peer_eof := false;
      tracked := [] |}.
 
@@ -146,12 +151,14 @@ Inductive label :=
 | LConnCall (regs : list out) (ping : bool)
 | LInit | LClosed | LDisc
 | LEnq (e : event)      (* readLoop put e into rx: internal, hidden from observers *)
+| LWFail (o : out)      (* sendLoop's write of the non-QUIT line o failed: internal, hidden *)
 | LDeliver (e : event)
 | LReturn (r : err)
 | LCloseCall | LCloseRet
 | LSend (o : out)
 | LIsConn (b : bool)
 | LPeerSend (l : line) | LPeerClose | LPeerRecv (o : out) | LPeerEOF
+| LWFault               (* the sending direction of the socket breaks; reads stay healthy *)
 | LTick (k : nat).
 
 Definition loops_done (s : state) : bool :=
@@ -223,15 +230,18 @@ Definition step_linger (s : state) : list (label * state) :=
   then [(Tau, set_linger false (set_inbuf (tl (inbuf s)) s))] else [].
 
 (* ---- sendLoop ---- *)
+(* a write succeeds unless either end is closed or the sending direction is broken *)
+Definition write_ok (s : state) : bool := negb (peer_closed s || sock_closed s || wbroken s).
+
 Definition step_send (s : state) : list (label * state) :=
   match spc s with
   | SSel =>
       (match tx s with
        | o :: r =>
-           let ok := negb (peer_closed s || sock_closed s) in
+           let ok := write_ok s in
            let s1 := set_tx r (if ok then set_outbuf (outbuf s ++ [o]) s else s) in
-           [(Tau, if o_quit o then set_spc SQuit s1      (* the write error of a QUIT is ignored *)
-                  else if ok then s1 else group_err EIO (set_spc SDone s1))]
+           [if o_quit o then (Tau, set_spc SQuit s1)     (* the write error of a QUIT is ignored *)
+            else if ok then (Tau, s1) else (LWFail o, group_err EIO (set_spc SDone s1))]
        | [] => []
        end)
       ++ (if cancelled s then [(Tau, set_spc SDone s)] else [])
@@ -250,8 +260,14 @@ Definition step_ping (s : state) : list (label * state) :=
 Definition step_app (s : state) : list (label * state) :=
   match close_st s with KCalled => [(Tau, set_close_st KDone (set_cancelled true s))] | _ => [] end.
 
+(* ---- the network: once the peer has closed, lines it sent that the client has not read yet
+   may be lost (a TCP reset discards them); they are lost from the end ---- *)
+Definition step_net (s : state) : list (label * state) :=
+  if peer_closed s && negb (is_nil (inbuf s)) then [(Tau, set_inbuf (removelast (inbuf s)) s)] else [].
+
 Definition sys_next_gen (timers : bool) (s : state) : list (label * state) :=
-  step_connect s ++ step_exec s ++ step_read_gen timers s ++ step_linger s ++ step_send s ++ step_ping s ++ step_app s.
+  step_connect s ++ step_exec s ++ step_read_gen timers s ++ step_linger s ++ step_send s ++ step_ping s
+  ++ step_app s ++ step_net s.
 Definition sys_next := sys_next_gen true.
 
 (* ---- environment ---- *)
@@ -291,13 +307,16 @@ Definition env_step (l : label) (s : state) : option state :=
         Some (if conn_set s && negb (sock_closed s) && negb (peer_closed s)
               then set_inbuf (inbuf s ++ [ln]) s else s))
   | LPeerClose => obind (spend 1 s) (fun s => Some (set_peer_closed true s))
+  | LWFault => obind (spend 1 s) (fun s => Some (set_wbroken true s))
   | LPeerRecv o =>
       match outbuf s with
       | o' :: r => if out_eqb o o' then Some (set_outbuf r s) else None
       | [] => None
       end
   | LPeerEOF =>
-      if sock_closed s && is_nil (outbuf s) && negb (peer_eof s) then Some (set_peer_eof true s) else None
+      (* the end of the stream; written lines the peer has not read by then are lost (a reset
+         discards them) *)
+      if sock_closed s && negb (peer_eof s) then Some (set_outbuf [] (set_peer_eof true s)) else None
   | LTick k =>
       match ppc s with
       | PSel =>
@@ -381,6 +400,7 @@ Definition state_eqb (a b : state) : bool :=
   Bool.eqb (cancelled a) (cancelled b) && Bool.eqb (conn_set a) (conn_set b) &&
   Bool.eqb (linger a) (linger b) && Bool.eqb (connected a) (connected b) &&
   Bool.eqb (sock_closed a) (sock_closed b) && Bool.eqb (peer_closed a) (peer_closed b) &&
+  Bool.eqb (wbroken a) (wbroken b) &&
   Bool.eqb (peer_eof a) (peer_eof b) && Nat.eqb (budget a) (budget b) &&
   Nat.eqb (length (rx a)) (length (rx b)) && Nat.eqb (length (tx a)) (length (tx b)) &&
   Nat.eqb (length (inbuf a)) (length (inbuf b)) && Nat.eqb (length (outbuf a)) (length (outbuf b)) &&
@@ -398,8 +418,8 @@ Definition label_eqb (a b : label) : bool :=
   end.
 
 Definition is_tau (l : label) : bool := match l with Tau => true | _ => false end.
-(* what an observer of a session cannot see: Tau and the enqueue of the read loop *)
-Definition is_hidden (l : label) : bool := match l with Tau | LEnq _ => true | _ => false end.
+(* what an observer of a session cannot see: Tau, the enqueue of the read loop, a failed write *)
+Definition is_hidden (l : label) : bool := match l with Tau | LEnq _ | LWFail _ => true | _ => false end.
 Definition visible (tr : list label) : list label := filter (fun l => negb (is_hidden l)) tr.
 
 Fixpoint mem_state (s : state) (l : list state) : bool :=
@@ -425,7 +445,7 @@ Definition skey (s : state) : positive :=
          + 4 * (match close_st s with KNone => 0 | KCalled => 1 | KDone => 2 end))%N;
         (code_b (cancelled s) + 2 * code_b (conn_set s) + 4 * code_b (linger s) + 8 * code_b (connected s)
          + 16 * code_b (sock_closed s) + 32 * code_b (peer_closed s))%N;
-        (code_b (peer_eof s) + 2 * code_b (err_is_nil (gerr s)))%N;
+        (code_b (peer_eof s) + 2 * code_b (err_is_nil (gerr s)) + 4 * code_b (wbroken s))%N;
         N.of_nat (length (rx s)); N.of_nat (length (tx s)); N.of_nat (length (inbuf s));
         N.of_nat (length (outbuf s)); N.of_nat (length (tracked s));
         code_b (match spc s with SQuit => true | _ => false end)] 0%N).
